@@ -523,7 +523,9 @@ func doOp(db *gorm.DB, op Op) error {
 		return db.Model(&User{ID: op.Target}).Updates(map[string]interface{}{"name": op.Users[0].Name, "age": op.Users[0].Age}).Error
 	case "update_col":
 		return db.Model(&User{ID: op.Target}).Update("name", op.Users[0].Name).Error
-	case "update_columns": // no hooks, no time tracking
+	case "update_column": // no hooks, no time tracking
+		return db.Model(&User{ID: op.Target}).UpdateColumn("name", op.Users[0].Name).Error
+	case "update_columns":
 		return db.Model(&User{ID: op.Target}).UpdateColumns(User{Name: op.Users[0].Name, Age: op.Users[0].Age}).Error
 	case "updates_slice": // the model is a slice: every row of it is updated
 		ms := make([]User, len(op.Targets))
@@ -531,7 +533,7 @@ func doOp(db *gorm.DB, op Op) error {
 			ms[i] = User{ID: id}
 		}
 		return db.Model(&ms).Updates(User{Age: op.Users[0].Age, Name: op.Users[0].Name}).Error
-	case "delete", "delete_where", "delete_model", "delete_pet":
+	case "delete", "delete_where", "delete_model", "delete_pet", "delete_conds":
 		tx := db
 		if len(op.Select) == 1 && op.Select[0] == "*" {
 			tx = tx.Select(clause.Associations)
@@ -541,6 +543,8 @@ func doOp(db *gorm.DB, op Op) error {
 		switch op.Kind {
 		case "delete_where":
 			return tx.Where("id = ?", op.Users[0].ID).Delete(&User{}).Error
+		case "delete_conds": // inline primary-key condition
+			return tx.Delete(&User{}, op.Users[0].ID).Error
 		case "delete_model": // conditions from the primary key of the value, the model given apart
 			return tx.Model(&User{}).Delete(&User{ID: op.Users[0].ID}).Error
 		case "delete_pet": // soft delete (UPDATE) unless Unscoped
@@ -848,7 +852,7 @@ func (g *gen) input() Input {
 		op.Kind, op.Target = "updates", uint(r.Range(1, int(nu)))
 		op.Users = []UserSpec{g.user(true)}
 	case c < 32 && nu > 0:
-		op.Kind, op.Target = lib.Pick(r, []string{"updates_map", "update_col", "update_columns"}), uint(r.Range(1, int(nu)))
+		op.Kind, op.Target = lib.Pick(r, []string{"updates_map", "update_col", "update_columns", "update_column"}), uint(r.Range(1, int(nu)))
 		op.Users = []UserSpec{{Name: g.name("r"), Age: r.Range(1, 90)}}
 		op.Returning = r.Chance(1, 3)
 		switch r.Intn(4) { // column selection for the update
@@ -871,11 +875,11 @@ func (g *gen) input() Input {
 			op.Select = lib.Pick(r, [][]string{{"*"}, {"Toys"}, {"Collar"}, {"Toys", "Collar"}})
 		}
 	case nu > 0:
-		op.Kind = lib.Pick(r, []string{"delete", "delete", "delete_where", "delete_model"})
+		op.Kind = lib.Pick(r, []string{"delete", "delete", "delete_where", "delete_model", "delete_conds"})
 		op.Users = []UserSpec{{ID: uint(r.Range(1, int(nu)))}}
 		op.Unscoped = r.Chance(1, 4)
 		op.Returning = r.Chance(1, 4)
-		if op.Kind != "delete_where" { // association deletes need the primary key in the value
+		if op.Kind != "delete_where" && op.Kind != "delete_conds" { // association deletes need the primary key in the value
 			switch r.Intn(4) {
 			case 0:
 			case 1:
@@ -1175,6 +1179,7 @@ func main() {
 			{Kind: "update_row", Table: "badges", Target: 1, Users: []UserSpec{plain}, Form: 1}, {Kind: "update_row", Table: "pets", Target: 1, Users: []UserSpec{plain}},
 			{Kind: "updates_map", Target: 1, Users: []UserSpec{plain}, Sel: []string{"Name"}},
 			{Kind: "delete", Users: []UserSpec{{ID: 1}}, Select: []string{"Pets", "Pets.Toys"}},
+			{Kind: "update_column", Target: 2, Users: []UserSpec{plain}}, {Kind: "delete_conds", Users: []UserSpec{{ID: 2}}},
 		}
 		for i, op := range menu {
 			if a.N > 0 && i >= a.N/25 {
